@@ -736,11 +736,103 @@ class Discharger:
                 return self.map_get_guard(ob, src)
             if re.search(r'TimeZone::from_local_datetime$|TimeZone::from_local_date$', path):
                 pass
+        if src[0] == 'phi':
+            g = self.phi_typed(ob, src)
+            if g:
+                return g
         # dominated by a check on the same value
         g = self.dom_check(ob, src0)
         if g:
             return g
         return None
+
+    def phi_typed(self, ob, src):
+        """unwrap of a match on the token of a captured field written in place (or in a spliced helper) - the typed getters
+        spelled out: `match fields.get("f").token_type { Some(Kind(..)) => Some(..), Some(Variable(v)) => item of v, _ => None }`.
+        The result is Some whenever the token of `f` is of a kind an arm builds Some for (path conditions of the Some
+        alternatives: presence of captured fields, the token type being set, the kind, and for a variable the item it
+        holds); discharged when every pattern of the rule binds `f` with a type whose tokens are all of such kinds - the
+        same argument, with the same trust in variable_compare, as for tools::get_X("f", fields).unwrap()."""
+        ctx = self.ctx
+        b = ob.body
+        rule = None
+        for rn, fn_ in list(model.rule_functions(ctx).items()) + [('small_date', 'tokinizer::rule_tokinizer::rules::date_rules::small_date')]:
+            if fn_ == b.path:
+                rule = rn
+        if rule is None:
+            return None
+        adt = ctx.facts.adts.get('types::TokenType')
+        if not adt:
+            return None
+        by_discr = {v['discr']: v['name'] for v in adt['variants']}
+        tn = model.token_type_names(ctx)
+        PRES = re.compile(r'^discr\(BTreeMap::get\(fields, "([^"]+)"\)\)$')
+        CONT = re.compile(r'^BTreeMap::contains_key\(fields, "([^"]+)"\)$')
+        TSET = re.compile(r'^discr\(BTreeMap::get\(fields, "([^"]+)"\) as Some\.0\.token_type\)$')
+        KIND = re.compile(r'^discr\(BTreeMap::get\(fields, "([^"]+)"\) as Some\.0\.token_type as Some\.0\)$')
+        VDATA = re.compile(r'^discr\(BTreeMap::get\(fields, "([^"]+)"\) as Some\.0\.token_type as Some\.0 as Variable\.0\.data\)$')
+        VITEM = re.compile(r'^discr\(downcast_ref\(DataItem::as_any\(BTreeMap::get\(fields, "([^"]+)"\) as Some\.0\.token_type as Some\.0 as Variable\.0\.data as Item\.0\)\)\)$')
+        try:
+            alts = alternatives(b, src)
+        except Exception:
+            return None
+        kinds_some = {}          # field -> set of TokenType variant names an arm builds Some for
+        present = set()
+        n_some = 0
+        for a, conds in alts:
+            a = strip(a)
+            if not (a[0] == 'aggr' and re.search(r'(Option::Some|Result::Ok)$', str(a[1]))):
+                continue
+            n_some += 1
+            fld, kind, ok = None, None, True
+            for d, v in conds:
+                r = render(d)
+                vals = set(v) if not isinstance(v, tuple) else None
+                m = PRES.match(r)
+                if m and vals == {1}:
+                    present.add(m.group(1))
+                    continue
+                m = CONT.match(r)
+                if m and ((vals is not None and vals == {1}) or (isinstance(v, tuple) and len(v) > 1 and set(v[1]) == {0})):
+                    present.add(m.group(1))
+                    continue
+                m = TSET.match(r)
+                if m and vals == {1}:
+                    fld = fld or m.group(1)
+                    ok = ok and fld == m.group(1)
+                    continue
+                m = KIND.match(r)
+                if m and vals is not None and len(vals) == 1 and list(vals)[0] in by_discr:
+                    fld = fld or m.group(1)
+                    ok = ok and fld == m.group(1)
+                    kind = by_discr[list(vals)[0]]
+                    continue
+                m = VDATA.match(r) or VITEM.match(r)
+                if m and vals is not None and len(vals) == 1:
+                    fld = fld or m.group(1)
+                    ok = ok and fld == m.group(1)
+                    continue
+                ok = False
+            if ok and fld and kind:
+                kinds_some.setdefault(fld, set()).add(kind)
+        if not n_some or len(kinds_some) != 1:
+            return None
+        name = list(kinds_some)[0]
+        accn = {tn.get(k) for k in kinds_some[name]}
+        pats = []
+        for lang in ctx.config.languages:
+            pats += [(lang, p) for rn, p, org in model.all_patterns(ctx, lang) if rn == rule]
+        if not pats:
+            return None
+        from .data import abstract_tokens
+        for lang, p in pats:
+            bound = {t[2]: t[1] for t in abstract_tokens(p) if t[0] == 'field'}
+            if name not in bound or not present <= set(bound):
+                return None
+            kinds = model.accepted_token_kinds(ctx, bound[name])
+            if kinds is None or not kinds <= accn:
+                return None
+        return ('pattern-typed', 'every pattern of %s binds %r with a type whose tokens (%s) the match written here turns into Some' % (rule, name, ', '.join(sorted(kinds_some[name]))))
 
     def d_unwrap_localresult(self, ob):
         b = ob.body
